@@ -77,6 +77,8 @@ package session
 //@     forall j int
 //@     ensures[C10,C07] imp(err == nil, resentN == old(resentN) + len(messages))
 //@     ensures[C10,C07] imp(err == nil && 0 <= j && j < len(messages), sel(resentAt, old(resentN) + j) == nth(messages, j))
+//@     ensures[C10,C07] @partial resentN >= old(resentN) && resentN <= old(resentN) + len(messages)
+//@     ensures[C10,C07] @partialorder imp(0 <= j && j < resentN - old(resentN), sel(resentAt, old(resentN) + j) == nth(messages, j))
 //@     ensures[C10,C07] imp(j < old(resentN), sel(resentAt, j) == old(sel(resentAt, j)))
 //@   method HandleIncoming(msgType string, handle simplefixgo.IncomingHandlerFunc) (id int64):
 //@     pure
@@ -328,6 +330,9 @@ package session
 //@   witness served = perr == nil && old(s.state) == SuccessfulLogged && (mEndSeqNo(req) != 0 || cerr == nil) && merr == nil && berr == nil
 //@   ensures[C10] @count imp(served, resentN == old(resentN) + last - mBeginSeqNo(req) + 1)
 //@   ensures[C10] @exact imp(served && mBeginSeqNo(req) <= j && j <= last, sel(resentAt, old(resentN) + j - mBeginSeqNo(req)) == sel(gStored(s.messageStorage), j))
+//@   witness asked = perr == nil && old(s.state) == SuccessfulLogged && (mEndSeqNo(req) != 0 || cerr == nil) && merr == nil
+//@   ensures[C10] @atmost imp(asked, resentN >= old(resentN) && resentN - old(resentN) <= last - mBeginSeqNo(req) + 1)
+//@   ensures[C10] @ascending imp(asked && mBeginSeqNo(req) <= j && j < mBeginSeqNo(req) + resentN - old(resentN), sel(resentAt, old(resentN) + j - mBeginSeqNo(req)) == sel(gStored(s.messageStorage), j))
 //@   ensures[C10] @nothingelse imp(perr == nil && merr != nil, resentN == old(resentN))
 //@   ensures[C05] @numbers imp(!sendFailed, cOut(s.counter) - old(cOut(s.counter)) == sentN - old(sentN))
 //@   ensures[C10] @toend imp(perr == nil && old(s.state) == SuccessfulLogged && cerr == nil && berr == nil && mEndSeqNo(req) == 0 && 1 <= mBeginSeqNo(req) && mBeginSeqNo(req) <= cOut(s.counter) && allStored(gHas(s.messageStorage), mBeginSeqNo(req), cOut(s.counter)), resentN == old(resentN) + cOut(s.counter) - mBeginSeqNo(req) + 1)
